@@ -1,0 +1,50 @@
+//go:build verif
+
+/*
+Copyright 2021 The Kubernetes Authors.
+
+Licensed under the Apache License, Version 2.0 (the "License");
+you may not use this file except in compliance with the License.
+You may obtain a copy of the License at
+
+    http://www.apache.org/licenses/LICENSE-2.0
+
+Unless required by applicable law or agreed to in writing, software
+distributed under the License is distributed on an "AS IS" BASIS,
+WITHOUT WARRANTIES OR CONDITIONS OF ANY KIND, either express or implied.
+See the License for the specific language governing permissions and
+limitations under the License.
+*/
+
+package admission
+
+import (
+	"time"
+
+	admissionv1 "k8s.io/api/admission/v1"
+)
+
+// VerifSetNamespaceLimits lets the verification harness exercise the namespace
+// dry-run cap and timeout logic at small values as well as at the defaults set
+// by CompleteConfiguration. Compiled only with the "verif" build tag.
+func (a *Admission) VerifSetNamespaceLimits(maxPods int, timeout time.Duration) {
+	a.namespaceMaxPodsToCheck = maxPods
+	a.namespacePodCheckTimeout = timeout
+}
+
+// VerifNamespaceLimits reports the limits currently in force.
+func (a *Admission) VerifNamespaceLimits() (int, time.Duration) {
+	return a.namespaceMaxPodsToCheck, a.namespacePodCheckTimeout
+}
+
+// VerifSharedResponses exposes the process-wide shared response objects so the
+// harness can recognise them by identity and check that they are never mutated.
+func VerifSharedResponses() map[string]*admissionv1.AdmissionResponse {
+	return map[string]*admissionv1.AdmissionResponse{
+		"allowed":      sharedAllowedResponse,
+		"privileged":   sharedAllowedPrivilegedResponse,
+		"user":         sharedAllowedByUserExemptionResponse,
+		"namespace":    sharedAllowedByNamespaceExemptionResponse,
+		"runtimeClass": sharedAllowedByRuntimeClassExemptionResponse,
+	}
+}
